@@ -75,6 +75,12 @@ def runHist (env : Env) : St → List MemIndex.Stmt → List String → List Str
     List String × List String × List String
   | _, [], io, so, rg => (io.reverse, so.reverse, rg.reverse)
   | st, s :: rest, io, so, rg =>
+    -- Region `index_rows_shared_with_snapshot`: what the shared index rows hold after the failed
+    -- statement depends on the iteration order of Go maps (which pending delete renumbers first);
+    -- the observation is opaque, the history ends here (the harness reports the finding through
+    -- its before/after oracle).
+    if regionMidApply env st s then ((("fail|*") :: io).reverse, (("fail|*") :: so).reverse, ("-" :: rg).reverse)
+    else
     let (st', failed) := runStmt env st s
     let i := rObs failed (rowsOf st') (indexView st')
     -- Spec: a failed statement leaves rows and index contents as they were; a successful one
@@ -84,10 +90,7 @@ def runHist (env : Env) : St → List MemIndex.Stmt → List String → List Str
       else
         let t' := specStmt env (rowsOf st) s.ops false
         rObs false t' (specIndexView env t')
-    let r :=
-      if i == sp then "-"
-      else if regionMidApply env st s then "index_rows_shared_with_snapshot"
-      else "?"
+    let r := if i == sp then "-" else "?"
     runHist env st' rest (i :: io) (sp :: so) (r :: rg)
 
 def pickRegion (rs : List String) : String :=
@@ -106,6 +109,58 @@ def handle (p : List Sexp) : String :=
       let s := ";".intercalate so
       if i == s then answer i else answer i s (pickRegion rg)
     | _, _ => answer "bad-case"
+  -- SQL-level cases have no Impl model: they are judged by the harness's model-free oracle only
+  | [.list (.atom "sql" :: _)] => answer "sql"
+  | _ => answer "bad-case"
+
+/-! ### C16: histories of statements and DDL steps
+
+payload ::= (env …) (steps step*)      step ::= (s stmt) | (trunc) | (mkidx (c*) uniq) | (rmidx j) -/
+
+def pStep : Sexp → Option Step
+  | .list [.atom "s", st] => do pure (.stmt (← pStmt st))
+  | .list [.atom "trunc"] => some .trunc
+  | .list [.atom "mkidx", cs, .atom u] => do pure (.mkidx { cols := (← pNats cs), unique := u == "1" })
+  | .list [.atom "rmidx", j] => do pure (.rmidx (← j.nat?))
+  | _ => none
+
+def specRows (env : Env) (t : List Row) : Step → List Row
+  | .stmt s => specStmt env t s.ops false
+  | .trunc => []
+  | _ => t
+
+def runSteps : Env → St → List Step → List String → List String → List String →
+    List String × List String × List String
+  | _, _, [], io, so, rg => (io.reverse, so.reverse, rg.reverse)
+  | env, st, s :: rest, io, so, rg =>
+    let inRegion := match s with
+      | .stmt x => regionMidApply env st x
+      | _ => false
+    if inRegion then ((("fail|*") :: io).reverse, (("fail|*") :: so).reverse, ("-" :: rg).reverse)
+    else
+    let (env', st', failed) := runStep env st s
+    let i := rObs failed (rowsOf st') (indexView st')
+    -- Spec (the C16 invariant): after every step each index holds exactly one storage row per
+    -- stored row, pointing at it; a failed step changes nothing
+    let sp :=
+      if failed then rObs true (rowsOf st) (specIndexView env (rowsOf st))
+      else
+        let t' := specRows env (rowsOf st) s
+        rObs false t' (specIndexView env' t')
+    let r := if i == sp then "-" else "?"
+    runSteps env' st' rest (i :: io) (sp :: so) (r :: rg)
+
+def handle16 (p : List Sexp) : String :=
+  match p with
+  | [env, .list (.atom "steps" :: steps)] =>
+    match pEnv env, steps.mapM pStep with
+    | some env, some steps =>
+      let (io, so, rg) := runSteps env (initSt env) steps [] [] []
+      let i := ";".intercalate io
+      let s := ";".intercalate so
+      if i == s then answer i else answer i s (pickRegion rg)
+    | _, _ => answer "bad-case"
+  | [.list (.atom "sql" :: _)] => answer "sql"
   | _ => answer "bad-case"
 
 end Gms.MemIndexProto
